@@ -137,6 +137,20 @@ func (p propC11) Gen(r *simrt.Rand, idx int, tier string) any {
 		c.Keys = append(c.Keys, "idle-big", "idle-new")
 		c.ReadBack = "none"
 	}
+	if idx%24 == 13 {
+		// a reader handed out inside a transaction is still being read when the transaction ends: it
+		// delivers its content to the end, through either client (several megabytes: far more than
+		// any window the transport has buffered by then)
+		id := uint64(970000)
+		c.Ops = append(c.Ops, Op{K: "set", Key: "tx-stream", ID: id, Size: 3<<20 + r.Intn(2<<20)})
+		c.Keys = append(c.Keys, "tx-stream")
+		for j := 0; j < 2; j++ {
+			tx := 900 + j
+			c.Ops = append(c.Ops, Op{K: "begin", Tx: tx + 1, Level: r.Intn(4)}, Op{K: "ropen", Tx: tx + 1, Key: "tx-stream", N: 3000 + j},
+				Op{K: []string{"commit", "rollback"}[j], Tx: tx + 1}, Op{K: "get", Key: c.Keys[0]}, Op{K: "rread", N: 3000 + j})
+		}
+		c.ReadBack = "none"
+	}
 	if idx%24 == 7 || idx%24 == 20 {
 		// long-lived streams: as many readers of a content of several megabytes as the server has
 		// workers (and one more) are handed out and left unread while ordinary calls go on; then they
